@@ -82,6 +82,7 @@ def one(job):
         base = demo_cmd(readme, "@@", d)
         res = {}
         base = re.sub(r"(?<![\w/])\d/demo\.c", "demo.c", base)
+        base = re.sub(r"/tmp/wt\d?/%s-out/\d/demo\.c" % pid, "demo.c", base)
         has_sh = os.path.exists(os.path.join(d, "demo.sh"))
         for tag, root in (("changed", wt), ("unchanged", "/repo")):
             if has_sh:
